@@ -559,6 +559,35 @@ def hv(v, bits):
     return ",".join(hw(x, bits) for x in v) if v else "-"
 
 
+
+def cast_boundaries(rng, width):
+    """Values of a `width`-bit scalar parameter (count, amount, index, length) at which a cast to a NARROWER or SIGNED
+    type inside the callee changes character: for every n in 8/16/32/64/128 <= width the low n bits are
+    0, 1, 2^(n-1)-1, 2^(n-1) (the sign bit alone: iN::MIN), 2^(n-1)+1, 2^n-1 under high bits 0 / random / all ones;
+    plus every power of two and its neighbours.  (Rule 20: a parameter that is in contract for every value is sampled
+    at the special values of every type it can be cast to, not only near 0 and near the word size.)"""
+    out = []
+    for n in (8, 16, 32, 64, 128):
+        if n > width:
+            break
+        lows = [0, 1, (1 << (n - 1)) - 1, 1 << (n - 1), (1 << (n - 1)) + 1, (1 << n) - 1]
+        highs = [0] if n == width else [0, int.from_bytes(rng.bytes(16), 'little') % (1 << (width - n)), (1 << (width - n)) - 1]
+        for h in highs:
+            for lo in lows:
+                out.append((h << n) | lo)
+    for j in range(width):
+        for d in (-1, 0, 1):
+            v = (1 << j) + d
+            if 0 <= v < (1 << width):
+                out.append(v)
+    seen, res = set(), []
+    for v in out:
+        if v not in seen:
+            seen.add(v)
+            res.append(v)
+    return res
+
+
 def gen_C19(rng, tier, cfg):
     N = 30 if tier == "quick" else 1000
     ops = []
@@ -624,6 +653,9 @@ def gen_C19(rng, tier, cfg):
     for i in [0, 128, 129, 255, 256, 2**32 - 1, 2**32, 2**32 + 5, 2**64 + 7, 2**128 - 1]:
         for _ in range(3):
             emit(T, "rotate_right", [vec(T, null_pick(rng, 99)), str(i)], ooc=True)
+    for i in cast_boundaries(rng, 128):
+        emit(T, "rotate_right", [vec(T, null_pick(rng, 99)), str(i)], ooc=True)
+    stats["amounts"][T + ".rotate_right cast boundaries"] = len(cast_boundaries(rng, 128))
     slices(T, "load", False, 1)
     slices(T, "xor_store", True, 1)
     for t in range(N):
@@ -647,6 +679,9 @@ def gen_C19(rng, tier, cfg):
     for i in [0, 128, 129, 255, 256, 2**32 - 1, 2**32, 2**32 + 5, 2**64 + 7, 2**128 - 1]:
         for _ in range(3):
             emit(T, "rotate_right", [vec(T, null_pick(rng, 99)), str(i)], ooc=True)
+    for i in cast_boundaries(rng, 128):
+        emit(T, "rotate_right", [vec(T, null_pick(rng, 99)), str(i)], ooc=True)
+    stats["amounts"][T + ".rotate_right cast boundaries"] = len(cast_boundaries(rng, 128))
     slices(T, "load", False, 2)
     slices(T, "xor_store", True, 2)
     for t in range(N):
@@ -700,6 +735,14 @@ def gen_C19(rng, tier, cfg):
         for _ in range(10 if tier == "quick" else 100):
             ii = [rng.choice(big) for _ in range(4)]
             emit(T, "rotate_right", [vec(T, null_pick(rng, 99)), hv(ii, bits)], ooc=True)
+        cb = cast_boundaries(rng, bits)
+        for t, v in enumerate(cb):          # the special count in every lane position, the others ordinary / special too
+            ii = [1 + rng.below(bits - 1) for _ in range(4)]
+            ii[t % 4] = v
+            if t % 3 == 0:
+                ii[(t + 1) % 4] = rng.choice(cb)
+            emit(T, "rotate_right", [vec(T, null_pick(rng, 99)), hv(ii, bits)], ooc=True)
+        stats["amounts"][T + ".rotate_right cast boundaries"] = len(cb)
         slices(T, "from_slice_unaligned", False, 4)
         slices(T, "write_to_slice_unaligned", True, 4)
         for t in range(N):
@@ -715,6 +758,13 @@ def gen_C19(rng, tier, cfg):
         for i in [4, 5, 6, 7, 8, 9, 2**31, 2**32 - 4, 2**32 - 1]:
             for _ in range(3):
                 emit(T, "rotate_words_right", [vec(T, null_pick(rng, 99)), str(i)], ooc=True)
+        for i in cast_boundaries(rng, 32):
+            if i >= 4:
+                emit(T, "rotate_words_right", [vec(T, null_pick(rng, 99)), str(i)], ooc=True)
+            if not (1 <= i < bits):
+                emit(T, "splat_rotate_right", [vec(T, null_pick(rng, 99)), str(i)], ooc=True)
+            if i >= 4:
+                emit(T, "extract", [vec(T, null_pick(rng, 99)), str(i)], ooc=True)
         amounts(T, "splat_rotate_right", 1, bits - 1)
         for i in [0, bits, bits + 1, 2 * bits - 1, 2 * bits, 2 * bits + 1, 255, 256, 2**31, 2**32 - bits, 2**32 - 1]:
             for _ in range(3):
@@ -734,6 +784,11 @@ def gen_C19(rng, tier, cfg):
     for i in [4, 5, 6, 7, 8, 2**31, 2**32 - 1]:
         for _ in range(3):
             emit(T, "rotate_words_right", [vec(T, null_pick(rng, 99)), str(i)], ooc=True)
+    for i in cast_boundaries(rng, 32):
+        if i >= 4:
+            emit(T, "rotate_words_right", [vec(T, null_pick(rng, 99)), str(i)], ooc=True)
+        if not (1 <= i < 32):
+            emit(T, "splat_rotate_right", [vec(T, null_pick(rng, 99)), str(i)], ooc=True)
     amounts(T, "splat_rotate_right", 1, 31)
     for i in [0, 32, 33, 63, 64, 65, 255, 256, 2**31, 2**32 - 32, 2**32 - 1]:
         for _ in range(3):
